@@ -6,7 +6,8 @@ usage: PYTHONHASHSEED=<n> /venv/bin/python harness/c15_child.py <jobs.json> <out
 jobs.json = {"jobs": [{"id": str, "kind": "flowir"|"dsl", "doc": <document>, "doc_key_seed": int,
                       "files": {relpath: text}, "file_order_seed": int,
                       "variable_files": [{"name": str, "doc": {...}}], "variable_order": [names...],
-                      "platform": str|null}], "scratch": dir}
+                      "platform": str|null, "again": bool (load it a second time at the end)}], "scratch": dir,
+             "logging": "debug" | absent}
 Each job is materialised by the child under scratch/<child-tag>/<id> with
   * the keys of every mapping of the documents permuted by doc_key_seed (the documents stay equal as
     Python values),
@@ -227,6 +228,11 @@ def main():
     jobs_path, out_path = os.path.abspath(sys.argv[1]), os.path.abspath(sys.argv[2])
     spec = json.load(open(jobs_path))
     tag = spec["tag"]
+    if spec.get("logging") == "debug":
+        # an ambient setting a user can change: every logger enabled at DEBUG level, the records are discarded
+        logging.disable(logging.NOTSET)
+        logging.getLogger().handlers = [logging.NullHandler()]
+        logging.getLogger().setLevel(logging.DEBUG)
     results = {}
     for job in spec["jobs"]:
         root = os.path.join(spec["scratch"], "%s-%s" % (tag, job["id"]))
@@ -236,6 +242,18 @@ def main():
         except Exception as exc:  # noqa
             import traceback
             results[job["id"]] = {"child_error": err_kind(exc), "tb": traceback.format_exc()[-1500:]}
+    # process-level state shared between independent loads: the jobs marked `again` are loaded once more, after all
+    # the others and in the reverse order, into a fresh directory; the parent requires the same dump
+    for job in reversed(spec["jobs"]):
+        if not job.get("again"):
+            continue
+        root = os.path.join(spec["scratch"], "%s-%s-again" % (tag, job["id"]))
+        os.makedirs(root, exist_ok=True)
+        try:
+            results[job["id"] + "@again"] = load(job, root)
+        except Exception as exc:  # noqa
+            import traceback
+            results[job["id"] + "@again"] = {"child_error": err_kind(exc), "tb": traceback.format_exc()[-1500:]}
     with open(out_path, "w") as fh:
         json.dump({"hashseed": os.environ.get("PYTHONHASHSEED"), "results": results}, fh, sort_keys=True)
     sys.stdout.flush()
